@@ -6,7 +6,7 @@
       0<=f<6 /\ 0<=l<=30 /\ 0<=k<4^l /\ c = f*2^61 + (2k+1)*4^(30-l). *)
 From Coq Require Import ZArith List Bool Floats Reals.
 From Geo Require Import Base.GoPrim Gen.CellIDFull Model.CellIDTables
-  Base.F64Arith Proofs.C01_Tables Proofs.C01_Algebra Proofs.C01_IJ Proofs.C01_Advance Proofs.C01_Point Proofs.StUV_Mono.
+  Base.F64Arith Proofs.C01_Tables Proofs.C01_Algebra Proofs.C01_IJ Proofs.C01_Advance Proofs.C01_Iter Proofs.C01_Point Proofs.StUV_Mono.
 (* the hand models compared with Go by the observer (built with this file: one make target) *)
 From Geo Require Model.CellIDNbr Model.CellIDText Model.C01Obs.
 Import ListNotations.
@@ -123,6 +123,27 @@ Proof.
 Qed.
 Print Assumptions c01_advance_wrap_steps.
 
+Theorem c01_descendants_enumerated : forall c f l k L, rep c f l k -> l <= L <= 30 ->
+  (forall n : nat, Z.of_nat n <= 4 ^ (L - l) ->
+     iter_next n (s2_CellID_ChildBeginAtLevel c L) = descendant c l L (Z.of_nat n)) /\
+  (forall m, 0 <= m < 4 ^ (L - l) ->
+     rep (descendant c l L m) f L (k * 4 ^ (L - l) + m) /\ s2_CellID_Parent (descendant c l L m) l = c /\
+     descendant c l L m < s2_CellID_ChildEndAtLevel c L) /\
+  descendant c l L (4 ^ (L - l)) = s2_CellID_ChildEndAtLevel c L.
+Proof.
+  intros c f l k L H HL. split; [exact (iterate_descendants c f l k L H HL)|]. split.
+  - intros m Hm. split; [exact (descendant_rep c f l k L m H HL Hm)|].
+    split; [exact (descendant_parent c f l k L m H HL Hm)|].
+    exact (proj2 (iterate_reaches_end c f l k L H HL) m Hm).
+  - exact (proj1 (iterate_reaches_end c f l k L H HL)).
+Qed.
+Print Assumptions c01_descendants_enumerated.
+
+Theorem c01_distance_from_begin_is_index : forall c f l k, rep c f l k ->
+  s2_CellID_distanceFromBegin c = index f l k.
+Proof. exact distanceFromBegin_index. Qed.
+Print Assumptions c01_distance_from_begin_is_index.
+
 (** points -------------------------------------------------------------------- *)
 Theorem c01_point_leaf_is_valid : forall p, exists f k, 0 <= f < 6 /\ rep (s2_cellIDFromPoint p) f 30 k /\
   s2_CellID_IsValid (s2_cellIDFromPoint p) = true /\ s2_CellID_IsLeaf (s2_cellIDFromPoint p) = true /\
@@ -130,13 +151,41 @@ Theorem c01_point_leaf_is_valid : forall p, exists f k, 0 <= f < 6 /\ rep (s2_ce
 Proof. exact leaf_valid. Qed.
 Print Assumptions c01_point_leaf_is_valid.
 
-(** [H_UVROUNDTRIP] (a statement about float64 arithmetic only, DESIGN.md section 4) and the
-    per-point premise [H_FACEUV p] (the projection of p on its own face succeeds with
-    |u|,|v| <= 1: true of every finite non-zero p) are explicit premises. *)
-Theorem c01_leaf_contains_point_under_H : H_UVROUNDTRIP -> forall p, H_FACEUV p ->
+(** Full-strength statement "the leaf of every finite non-zero p contains p" is FALSE of the
+    unchanged code (KNOWN finding Cell.ContainsPoint.leafMargin): witness by evaluation. *)
+Theorem c01_leaf_contains_refuted : exists p,
+  (fin (r3_Vector_X (s2_Point_Vector p)) /\ fin (r3_Vector_Y (s2_Point_Vector p)) /\ fin (r3_Vector_Z (s2_Point_Vector p))) /\
+  s2_CellID_IsValid (s2_cellIDFromPoint p) = true /\
+  s2_Cell_ContainsPoint (s2_CellFromCellID (s2_cellIDFromPoint p)) p = false.
+Proof. exact leaf_contains_refuted. Qed.
+Print Assumptions c01_leaf_contains_refuted.
+
+(** its one-dimensional cause: a u in [-1,1] more than 2^-52 below the uv-interval of its own column *)
+Theorem c01_uv_roundtrip_refuted : exists u, fin u /\
+  PrimFloat.leb (-1)%float u = true /\ PrimFloat.leb u 1%float = true /\
+  PrimFloat.leb (PrimFloat.sub (s2_stToUV (s2_ijToSTMin (s2_stToIJ (s2_uvToST u)))) uvMargin) u = false /\
+  ~ uv_roundtrip_at u.
+Proof. exact uv_roundtrip_refuted. Qed.
+Print Assumptions c01_uv_roundtrip_refuted.
+
+(** Positive theorem, with the round-trip bound as an explicit premise on the point:
+    [H_FACEUV p]     the projection of p on its own face succeeds with |u|,|v| <= 1 (every finite non-zero p);
+    [roundtrip_ok p] u and v lie within the code's margin (2^-52, float arithmetic as in
+                     r1.Interval.Expanded) of the uv-interval of the leaf column they are assigned to. *)
+Theorem c01_leaf_contains_point_if_roundtrip_ok : forall p, H_FACEUV p -> roundtrip_ok p ->
   s2_Cell_ContainsPoint (s2_CellFromCellID (s2_cellIDFromPoint p)) p = true.
 Proof. exact leaf_contains. Qed.
-Print Assumptions c01_leaf_contains_point_under_H.
+Print Assumptions c01_leaf_contains_point_if_roundtrip_ok.
+
+(** what a sufficient margin is: under [H_UVROUNDTRIP] (|stToUV(uvToST u) - u| <= 4.5 * 2^-52 on [-1,1])
+    and [H_GRIDCELL] (the column's interval brackets stToUV(s)) — float64 arithmetic only — every u
+    in [-1,1] is within any margin m >= 4.5 * 2^-52 of its own column's interval. *)
+Theorem c01_margin_4p5_suffices_under_H : H_UVROUNDTRIP -> H_GRIDCELL -> forall m, fin m ->
+  (9 / 2 / 4503599627370496 <= RV m <= 1)%R -> forall u, inR (-1) 1 u ->
+  let i := s2_stToIJ (s2_uvToST u) in
+  uv_within_m m (s2_stToUV (s2_ijToSTMin i)) (s2_stToUV (s2_ijToSTMin (i + 1))) u.
+Proof. exact within_any_margin_ge_4p5. Qed.
+Print Assumptions c01_margin_4p5_suffices_under_H.
 
 (** stToUV is weakly monotone on [0,1] (closed; Proofs/StUV_Mono.v): the uv-interval of a
     grid column widens when the column does *)
@@ -146,11 +195,9 @@ Proof. exact stToUV_mono. Qed.
 Print Assumptions c01_stToUV_monotone.
 
 (** the premises are satisfiable *)
-Example c01_hypotheses_example :
-  H_FACEUV (mk_s2_Point (mk_r3_Vector 1 0 0)) /\ uv_roundtrip_at 0%float /\ uv_roundtrip_at 1%float.
-Proof.
-  split; [exact H_FACEUV_example|]. destruct H_UVROUNDTRIP_instances as (A & B & _). split; assumption.
-Qed.
-
 Example c01_rep_example : rep 3458764513820540928 1 0 0 /\ rep 1 0 30 0 /\ rep 13835058055282163711 5 30 (4 ^ 30 - 1).
 Proof. repeat split; vm_compute; congruence. Qed.
+
+Example c01_point_premises_example :
+  H_FACEUV (mk_s2_Point (mk_r3_Vector 1 0 0)) /\ roundtrip_ok (mk_s2_Point (mk_r3_Vector 1 0 0)).
+Proof. split; [exact H_FACEUV_example|exact (proj1 roundtrip_ok_example)]. Qed.
